@@ -63,7 +63,7 @@ def known_match(entry, f: Finding):
     return True
 
 
-SITE_DRIVEN = re.compile(r"/(frame\.|callee-pre\[|dask\.from_delayed\.|np\.searchsorted\.|ghost\.)")
+SITE_DRIVEN = re.compile(r"/(frame\.|callee-pre\[|dask\.from_delayed\.|np\.searchsorted\.|ghost\.|loop\.(column-local|data-oblivious)\[)")
 
 
 def replay_refuted(interp, contract, inst, model, pb, rng, tries):
